@@ -385,6 +385,11 @@ def compare(ctx, reqs, pending):
             Tm = np.array([[complex(fr(z[0]), fr(z[1])) for z in row] for row in model["T"]])
             if Tm.shape != obs.shape or maxabs(Tm - obs) != 0:
                 ctx.disagree(f"GaussCompile.mix1/mix2 vs {case['fn']}", case, Tm.tolist(), obs.tolist())
+        elif kind == "surgery":
+            m = sorted({(a, b) for a, b in model})
+            if m != [tuple(x) for x in obs]:
+                ctx.disagree("GaussCompile.surgeryEdges vs new_DAG of merge_a_gaussian_op", case,
+                             dict(only_model=sorted(set(m) - set(obs)), only_real=sorted(set(obs) - set(m))), "edge sets differ")
         elif kind == "merge-step":
             if model is not True:
                 ctx.disagree("GaussCompile.checkMerge vs python twin on a gaussian_merge step", case, model, True)
@@ -707,6 +712,11 @@ def check_merge(ctx, spec, reqs, pending, fock=False):
                          blocks=[dict(members=m_ids, emitted=e_ids)], segs=segs))
         pending.append(("merge-step", spec, None))
         ctx.tally("merge:steps-certified")
+        if dag is not None:
+            # the graph after the surgery against the model's edge set (surgeryEdges / surgeryEdgesNil)
+            real = sorted({(cid(a), cid(b)) for a, b in dag[1]})
+            reqs.append(dict(op="gc.surgery", l=lean_cmds(b_ids), ms=m_ids, emitted=lean_cmds([cid(c) for c in emitted])))
+            pending.append(("surgery", dict(spec=spec, members=m_ids, emitted=[cid(c) for c in emitted]), real))
     if ok and fock:
         fock_compare(ctx, spec, prog, comp, rp)
 
